@@ -43,6 +43,10 @@ type loopInfo struct {
 	rangeIt   ssa.Value
 	rangeIdx  *ssa.Alloc
 	backEdges int
+	// heap components written in the loop that are not in the function's modifies clause: the loop carries the
+	// automatic invariant "cells that existed at function entry are unchanged" (checked on entry and on every
+	// back edge), so that the semantic frame obligation at the returns can be established across the havoc
+	frameComps []string
 }
 
 type FnCtx struct {
@@ -1123,6 +1127,29 @@ func (fx *FnCtx) loopEnv(li *loopInfo, st *State) *Env {
 func (fx *FnCtx) enterLoop(li *loopInfo, st *State, preds []*ssa.BasicBlock) *State {
 	P := fx.P
 	li.preState = st.clone()
+	// automatic frame invariant, init part
+	{
+		comps := map[string]bool{}
+		locals := map[*ssa.Alloc]bool{}
+		iters := map[ssa.Value]bool{}
+		all, allocs := false, false
+		for b := range li.blocks {
+			for _, in := range b.Instrs {
+				fx.instrWrites(in, locals, comps, &all, &allocs, iters)
+			}
+		}
+		if fx.fc.AutoFrame && !all && !fx.fc.ModAll && fx.fc.Kind == "func" && li.spec != nil {
+			for _, c := range sortedKeys(comps) {
+				if fx.modSet[c] || strings.HasPrefix(c, "P$local:") || c == "*" {
+					continue
+				}
+				if sc, ok := fx.compSort[c]; ok && strings.HasPrefix(sc, "(Array Int ") {
+					li.frameComps = append(li.frameComps, c)
+					fx.obligNamed(fmt.Sprintf("%s#inv.init@loop%d.frame.%s", fx.key, li.ord, sanitize(c)), fx.frameInv(st, c), "cells of "+c+" that existed at entry are unchanged (automatic frame invariant)", nil, "")
+				}
+			}
+		}
+	}
 	// init obligations (evaluated in merged entry state, guarded by R_header)
 	if li.spec != nil {
 		for j, c := range li.spec.Invariants {
@@ -1192,6 +1219,9 @@ func (fx *FnCtx) enterLoop(li *loopInfo, st *State, preds []*ssa.BasicBlock) *St
 		}
 	}
 	li.headSt = hs
+	for _, c := range li.frameComps {
+		fx.assume(fx.frameInv(hs, c))
+	}
 	// assume invariants
 	if li.spec != nil {
 		for _, c := range li.spec.Invariants {
@@ -1216,6 +1246,17 @@ func (fx *FnCtx) enterLoop(li *loopInfo, st *State, preds []*ssa.BasicBlock) *St
 	return hs.clone()
 }
 
+// frameInv: every cell of component c that existed at function entry has its entry value in state st
+func (fx *FnCtx) frameInv(st *State, c string) Term {
+	sortc := fx.compSort[c]
+	h0 := fx.entry.getHeap(fx.P, c, sortc)
+	h1 := st.getHeap(fx.P, c, sortc)
+	if h0.S == h1.S {
+		return tTrue
+	}
+	return Term{fmt.Sprintf("(forall ((fr Int)) (! (=> (< fr next0) (= (select %s fr) (select %s fr))) :pattern ((select %s fr))))", h1.S, h0.S, h1.S), "Bool"}
+}
+
 func (fx *FnCtx) checkBackEdge(li *loopInfo, from *ssa.BasicBlock, succIdx int) {
 	st := fx.outSt[from]
 	cond := fx.edgeCond[[2]int{from.Index, li.header.Index}]
@@ -1228,6 +1269,9 @@ func (fx *FnCtx) checkBackEdge(li *loopInfo, from *ssa.BasicBlock, succIdx int) 
 	if li.spec == nil {
 		fx.obligNamed(fmt.Sprintf("%s#inv.missing@loop%d%s", fx.key, li.ord, sfx), tFalse, "loop has no invariant in the contract", nil, "")
 		return
+	}
+	for _, c := range li.frameComps {
+		fx.obligNamed(fmt.Sprintf("%s#inv.keep@loop%d.frame.%s%s", fx.key, li.ord, sanitize(c), sfx), implies(cond, fx.frameInv(st, c)), "cells of "+c+" that existed at entry are unchanged (automatic frame invariant)", nil, "")
 	}
 	for j, c := range li.spec.Invariants {
 		env := fx.loopEnv(li, st)
